@@ -567,7 +567,64 @@ def c36(idx: Index, rep: Report, tier: str) -> None:
     rep.check(not later, rule, "nothing is merged into self._values after the default-valued entries were dropped", cs.loc(later[0]) if later else cs.loc(), construct=norm(later[0])[:80] if later else "no insertion besides the filtered assignment", detail="" if not later else "an ancestor's entries are added after the filter: a fluent that a descendant set back to its default (dropped by the filter) gets the ancestor's older value again; hash, equality and get_value change with the history", function=cs.qualname)
 
 
-EXTRA3 = {"C36": c36, "C32": c32, "C33": c33, "C31": c31, "C17": c17, "C25": c25, "C20": c20, "C27": c27, "C28": c28}
+# ------------------------------------------------------------------------------------ C38
+def c38(idx: Index, rep: Report, tier: str) -> None:
+    """Names that are kept verbatim (`names_mapping[x] = x.name` for valid names) must all be reserved before the
+    first fresh name is drawn (`_get_anml_name`), otherwise a mangled name can coincide with a valid name that is
+    reserved only later and two elements are written under one name."""
+    rule = "C38.4 T2 verbatim-names-reserved-before-fresh-names"
+    n = 0
+    for f in idx.all_funcs():
+        if f.module.name != "unified_planning.io.anml_writer":
+            continue
+        cfg = cfg_of(f)
+        draws = [nd for nd, c in cfg_nodes_with_call(cfg, "_get_anml_name")]
+        if not draws:
+            continue
+        table_args = {norm(c.args[1]) for _, c in cfg_nodes_with_call(cfg, "_get_anml_name") if len(c.args) > 1}
+        keeps = []
+        for nd in cfg.nodes:
+            a = nd.ast
+            if nd.kind == "stmt" and isinstance(a, ast.Assign) and isinstance(a.targets[0], ast.Subscript) and norm(a.targets[0].value) in table_args and isinstance(a.value, ast.Attribute) and a.value.attr == "name":
+                keeps.append(nd)
+        if not keeps:
+            continue
+        for k in keeps:
+            n += 1
+            w = None
+            for d in draws:
+                w = w or cfg.path_avoiding(d, k, set())
+            rep.check(w is None, rule, f"{f.short}: `{norm(k.ast)[:50]}` happens before any fresh name is drawn", f.loc(k.ast), construct=f"{norm(k.ast)} {'after ' + norm(w[0].ast)[:50] if w else 'before every _get_anml_name'}", detail="" if w is None else "a valid name is reserved only after fresh names were already handed out: an earlier element with an invalid name can be mangled to exactly this name, and both elements are then written under it", function=f.qualname, path=path_text(w) if w else None)
+    rep.count("verbatim_reservations", n)
+    rep.require_min(rule, "verbatim_reservations", 3)
+
+    # a validity test must look at the whole name: the pattern is anchored at both ends (or fullmatch is used)
+    import re as _re
+
+    rule5 = "C38.5 validity-pattern-covers-the-whole-name"
+    k = 0
+    for q in ("io.anml_writer._is_valid_anml_name",):
+        f = idx.func(q)
+        pats = [c for c in walk_no_nested(f.node) if isinstance(c, ast.Call) and norm(c.func) in ("re.compile", "re.match", "re.fullmatch", "re.search") and c.args and isinstance(c.args[0], ast.Constant) and isinstance(c.args[0].value, str)]
+        full = any(isinstance(c, ast.Call) and norm(c.func).endswith("fullmatch") for c in walk_no_nested(f.node))
+        searches = any(isinstance(c, ast.Call) and norm(c.func).endswith(".search") for c in walk_no_nested(f.node))
+        for c in pats:
+            k += 1
+            try:
+                parsed = list(_re._parser.parse(c.args[0].value))
+            except Exception as ex:  # pragma: no cover
+                rep.inconclusive(rule5, f"{f.short}: pattern not parsable ({ex})", f.loc(c), function=f.qualname)
+                continue
+            AT = _re._constants.AT
+            ends = bool(parsed) and parsed[-1][0] is AT and parsed[-1][1] in (_re._constants.AT_END, _re._constants.AT_END_STRING)
+            begins = bool(parsed) and parsed[0][0] is AT and parsed[0][1] in (_re._constants.AT_BEGINNING, _re._constants.AT_BEGINNING_STRING)
+            ok = full or (ends and (begins or not searches))
+            rep.check(ok, rule5, f"{f.short}: the pattern has to match the whole name", f.loc(c), construct=f"{c.args[0].value!r}: " + ("anchored" if ok else "matches a prefix only"), detail="" if ok else "a name that only *starts* like an identifier (`at-home`, `x y`) is accepted as valid and written verbatim: the output contains an invalid identifier", function=f.qualname)
+    rep.count("validity_patterns", k)
+    rep.require_min(rule5, "validity_patterns", 1)
+
+
+EXTRA3 = {"C38": c38, "C36": c36, "C32": c32, "C33": c33, "C31": c31, "C17": c17, "C25": c25, "C20": c20, "C27": c27, "C28": c28}
 
 
 def run_extra3(prop: str, idx: Index, rep: Report, tier: str) -> None:
